@@ -30,8 +30,16 @@ def tridiag(report):
 typedef struct { Index m_n; Scalar *m_main_diag; Scalar *m_sub_diag; Mat m_evecs; _Bool m_computed; _Bool g_zero_exit; _Bool g_ident; } TE;
 /* tridiagonal_qr_step(diag, subdiag, start, end, Q, n): frame contract (its body is a bounded kernel):
  * writes only diag[start..end] and subdiag[start..end-1]; requires 0 <= start < end <= n-1 */
+Scalar g_max[2];    /* ghost: max |.| over the diagonal / the sub-diagonal of the input (arbitrary but fixed, >= 0) */
 static Scalar MAXABS_DIAG(Index n, Index k)
-{ __CPROVER_assert(n - k >= 1, "Eigen: maxCoeff() needs a non-empty vector (diagonal / sub-diagonal of the input)"); return NONNEG_SCALAR(); }
+{ __CPROVER_assert(n - k >= 1, "Eigen: maxCoeff() needs a non-empty vector (diagonal / sub-diagonal of the input)"); __CPROVER_assume(g_max[k] >= (Scalar)0); return g_max[k]; }
+/* WEAK obligation (group tridiag.scaling only): the working copy is the input divided by exactly max|T_ij| - the implementation's means of being scale invariant,
+ * not the property itself, so a refutation counts only if it replays on the real code */
+#ifdef CHECK_SCALING
+#define SCALING_CHECK(n, sc) __CPROVER_assert((sc) == VMAX(g_max[0], ((n) > 1 ? g_max[1] : (Scalar)0)), "tridiag.scaling: the matrix is normalised by its own largest entry max|T_ij| (scale invariance of the iteration)")
+#else
+#define SCALING_CHECK(n, sc) ((void)0)
+#endif
 static void tridiagonal_qr_step(Scalar *diag, Scalar *subdiag, Index start, Index end, Scalar *matrixQ, Index n)
 {
   __CPROVER_assert(0 <= start && start < end && end <= n - 1, "tridiagonal_qr_step precondition: 0 <= start < end <= n-1");
@@ -62,8 +70,8 @@ static void tridiagonal_qr_step(Scalar *diag, Scalar *subdiag, Index start, Inde
            ("maxdiag", r"mat\.diagonal\(\)\.cwiseAbs\(\)\.maxCoeff\(\)", "MAXABS_DIAG(rows, 0)", {"max": 1}),
            ("maxsubd", r"mat\.diagonal\(-1\)\.cwiseAbs\(\)\.maxCoeff\(\)", "MAXABS_DIAG(rows, 1)", {"max": 1}),
            ("zero", r"m_main_diag\.setZero\(\);", "HAVOC_VEC(m_main_diag); T->g_zero_exit = 1;", {"max": 1}),
-           ("copy-d", r"m_main_diag\.noalias\(\) = mat\.diagonal\(\) / scale;", "HAVOC_VEC(m_main_diag);", {"max": 1}),
-           ("copy-s", r"m_sub_diag\.noalias\(\) = mat\.diagonal\(-1\) / scale;", "HAVOC_VEC(m_sub_diag);", {"max": 1}),
+           ("copy-d", r"m_main_diag\.noalias\(\) = mat\.diagonal\(\) / (\w+);", r"SCALING_CHECK(rows, \1); HAVOC_VEC(m_main_diag);", {"max": 1}),
+           ("copy-s", r"m_sub_diag\.noalias\(\) = mat\.diagonal\(-1\) / (\w+);", r"SCALING_CHECK(rows, \1); HAVOC_VEC(m_sub_diag);", {"max": 1}),
            ("data-d", r"m_main_diag\.data\(\)", "m_main_diag", {"max": 1}), ("data-s", r"m_sub_diag\.data\(\)", "m_sub_diag", {"max": 1}),
            ("qstep", r"tridiagonal_qr_step\(diag, subdiag, start, end, m_evecs\.data\(\), m_n\);", "tridiagonal_qr_step(diag, subdiag, start, end, m_evecs.colbuf, m_n);", {"max": 1}),
            ("precision", r"Eigen::NumTraits<Scalar>::epsilon\(\)", "SCALAR_EPS", {"max": 1}),
@@ -83,9 +91,14 @@ static void tridiagonal_qr_step(Scalar *diag, Scalar *subdiag, Index start, Inde
     t = t.replace("TE *T, Index mat", "TE *T, Index rows, Index cols")
     report["TridiagEigen::compute"] = R.fired
     h = spec.harness("h", "  TE Tv; TE *T = &Tv; T->m_n = nondet_Index(); T->m_main_diag = VEC_NEW(0); T->m_sub_diag = VEC_NEW(0); T->m_evecs = MAT_NEW(0, 0); T->m_computed = nondet_bool(); Index rows = nondet_Index(), cols = nondet_Index();", "T, rows, cols")
-    return Group("tridiag.compute", BASE + types + t + h, "h", enforce="te_compute", solver="cadical", defines=["SCALAR_DOUBLE"], timeout=600,
-                 functions=[TH + ":compute"], expect_classes=["loop_invariant_step", "tridiagonal_qr_step precondition"],
-                 note="nested data-dependent loops under loop contracts; tridiagonal_qr_step replaced by its frame contract")
+    g1 = Group("tridiag.compute", BASE + types + t + h, "h", enforce="te_compute", solver="cadical", defines=["SCALAR_DOUBLE"], timeout=600,
+               functions=[TH + ":compute"], expect_classes=["loop_invariant_step", "tridiagonal_qr_step precondition"],
+               note="nested data-dependent loops under loop contracts; tridiagonal_qr_step replaced by its frame contract")
+    g2 = Group("tridiag.scaling", BASE + types + t + h, "h", enforce="te_compute", solver="cadical", defines=["SCALAR_DOUBLE", "CHECK_SCALING"], timeout=600,
+               functions=[TH + ":compute"], expect_classes=["tridiag.scaling"],
+               note="WEAK: same text with the normalisation obligation switched on; a refutation counts only if the native replay (scaled matrix families 1e-100 .. 1e100) reproduces it")
+    g2.weak = "normalisation by max|T_ij| is the implementation's means of scale invariance, not the property itself"
+    return [g1, g2]
 
 
 # ------------------------------------------------------------------ UpperHessenbergSchur::compute
@@ -472,7 +485,7 @@ void h(void) {
 
 def build(tier):
     report = {}
-    groups = [tridiag(report), schur(report)] + schur_helpers(report) + householder_kernels(tier, report)
+    groups = tridiag(report) + [schur(report)] + schur_helpers(report) + householder_kernels(tier, report)
     types, t, spec = hesseigen(report)
     h = spec.harness("h", "  HE Ev; HE *E = &Ev; E->m_n = nondet_Index(); __CPROVER_assume(0 <= E->m_n && E->m_n <= NMAXS); E->m_matT = MAT_NEW(E->m_n, E->m_n); E->kind = IVEC_NEW(E->m_n); E->m_eivalues = NULL;", "E")
     from props import skel
